@@ -58,7 +58,11 @@ def main():
     src = os.path.join(os.environ.get("VERIF_REPO", "/repo"), "src")
     sys.path.insert(0, src)
     import logging
-    logging.disable(logging.CRITICAL)
+    # Logging stays ENABLED (code guarded by logger.isEnabledFor(...) must run
+    # as it does for users; vlib.runner.set_case_environment varies the level
+    # per case); it is only kept off the terminal: a handler on the root
+    # logger makes basicConfig() of the command-line tools a no-op
+    logging.getLogger().addHandler(logging.NullHandler())
     import warnings
     warnings.filterwarnings("ignore")
     import neuroglancer_scripts
